@@ -160,6 +160,8 @@ def check_table(objs, ident, tm):
             continue
         tile = t[1]
         total += tile.numrows
+        if tile.numrows == 0 and rows > 0:
+            out.append(("empty_tile", f"table {ident}: tile {tref.tileid} (object {tref.tile.identifier}) accounts for no row of the table's {rows}"))
         if len(tile.rowInfos) > tile.numrows and tile.numrows:
             out.append(("tile_rowinfo_count", f"table {ident}: tile {tref.tileid} declares {tile.numrows} rows but holds {len(tile.rowInfos)} row records"))
         for ri in tile.rowInfos:
